@@ -120,7 +120,7 @@ def run(replay=None):
         ck.finish()
     quick = ck.tier == "quick"
     progs = []
-    for k in range(500 if quick else 20000):
+    for k in range(500 if quick else 6000):
         r = ck.rng.random()
         if r < 0.15:
             p = gen_tie_product(ck.rng, f"h{k}")
@@ -136,7 +136,7 @@ def run(replay=None):
             p = exprlib.gen_program(ck.rng, f"h{k}", ck.rng.randint(6, 30), safe=ck.rng.random() < 0.7,
                                     ops_bin=exprlib.ARITH_BIN + ["OP_MIN", "OP_MAX", "OP_MIN", "OP_MAX", "OP_DIV"],
                                     ops_un=exprlib.SMOOTH_UN + ["OP_SQRT", "OP_ABS"], var_p=0.12, apply_p=0.0)
-        nq = ck.rng.randint(5, 30 if quick else 200)
+        nq = ck.rng.randint(5, 30 if quick else 120)
         hist, kinds = gen_history(ck.rng, p, nq)
         p.kinds_used = kinds
         p.q = p.ncmd + 1
@@ -144,7 +144,7 @@ def run(replay=None):
         p.emit(f"history {p.root} {p.nvars} {init} {hist}".replace("  ", " "))
         progs.append(p)
     hout, hskip = common.run_cases_sharded(os.path.join(common.BUILD, "cxx", "bin", "expr"), [p.text() for p in progs],
-                                          timeout=600, single_timeout=60)
+                                          timeout=600 if quick else 3000, single_timeout=60)
     H = parse_out(hout)
     skipped = set(t.split()[1] for t in hskip)
     stats = dict(histories=0, queries=0, skipped_timeouts=len(skipped))
@@ -178,7 +178,7 @@ def run(replay=None):
     ck.coverage.update(stats)
     ck.coverage["evaluations"] = stats["queries"]
     ck.coverage["distinct_nontrivial"] = nontriv
-    ck.coverage["rule"] = ("CSG (optionally wrapped in sqrt) and random expressions with free variables x histories of 5..30 (thorough: 200) "
+    ck.coverage["rule"] = ("CSG (optionally wrapped in sqrt) and random expressions with free variables x histories of 5..30 (thorough: 120) "
                            "queries; batch sizes {1,2,3,15,16,17,31,32,33,64,255,256}; points incl. exact min/max ties; "
                            "non-trivial = >= 3 kinds of query and at least one push or variable update in the history")
     ck.coverage["samples"] = samples
